@@ -150,6 +150,9 @@ def jobs(tier):
     add(3, 2, 0, 0, down=2)
     add(3, 3, 1, 0)
     add(3, 3, 0, 2, wfail=2)
+    add(3, 3, 0, 2, wfail=3)             # one-by-one + SELF_DIRECT, both other threads unreachable: direct completion with counts (1 sent, 2 failed)
+    add(3, 3, 1, 0)                      # one-by-one started by a pool thread other than thread 0 (walk must skip the caller)
+    add(3, 3, 2, 1)                      # ... with SELF_SKIP
     add(2, 2, 0, 0, wfail=4)             # the completion message itself is refused (known finding: done_cb on a foreign thread)
     add(3, 3, 0, 1, wfail=4)
     if tier == "quick":
